@@ -10,7 +10,10 @@ EXPLANATION = ("R18.1 reserve snapshots are written only by instantiate and by t
                "timestamp of the message, next round id) and its latest / n-rounds-back queries return stored elements; R18.4 on every "
                "path of the two TWAP functions that ends within one unrolled iteration, the result is a single observed price or "
                "sum(price_i * w_i) / D whose weights telescope to exactly D (now - t0 + t0 - base = interval, or the covered period when "
-               "the history is shorter), and the averaging loop has no exit other than history exhausted / window start reached.")
+               "the history is shorter), and the averaging loop has no exit other than history exhausted / window start reached; R18.5 the vAMM's TwapPrice / InputTwap / "
+               "OutputTwap queries average, per snapshot, the reserve price / the input / the output pricing function of (msg.direction, "
+               "msg.amount) on the snapshot's reserves, starting at snapshot[counter] (composed from the arm's parameter value and the "
+               "per-snapshot price function).")
 NOT_DECIDED = ("the convexity claim itself for histories longer than the unrolled prefix (weights of later iterations are loop-carried); "
                "the zero-interval and single-snapshot shortcuts return the current price (checked), but that the price lies between min "
                "and max is arithmetic.")
